@@ -105,7 +105,7 @@ def run(chk, repo, tier):
     no_hidden_state(chk, repo, 'C09')
     chk.clause('C09-a', 'tilt is refused first; _has_tilt inspects every field', 2)
     chk.clause('C09-b', 'shapes larger than the FFT grid are refused', 1)
-    chk.clause('C09-c', 'a scratch buffer of exactly the advertised scratch_shape is accepted', 2)
+    chk.clause('C09-c', 'a scratch buffer of exactly the advertised scratch_shape is accepted, for every wavelength of a band', 3)
     chk.clause('C09-d', 'scratch transparency: the region is zeroed before any insert; inserts and transform use the same region', 4)
     chk.clause('C09-e', 'grid = round(1/alpha); reported wavelength has the dimension of a length; crossed arguments excused by a symmetry proof', 3)
     chk.clause('C09-f', 'both branches transform the same centred embedding of the field', 2)
@@ -250,6 +250,25 @@ def run(chk, repo, tier):
         wl = e[0].bound.get('wavelength') if e else None
         oks = oks and wl is not None and ('sym', 'wavelength') in nf.value_atoms(wl)
     chk.ob('C09-c', 'D-flow', fss.key, 'advertised shape is the FFT grid of _fft_shape', oks, '', fss.loc())
+    # the grid has round(wavelength*z*oversample/(dx*du)) samples: it grows with the wavelength, so a band of wavelengths
+    # needs the buffer of its *longest* one
+    okw, detw = None, 'wavelength argument not understood'
+    for p in returns(sp):
+        e = p.calls('propagate._fft_shape')
+        wl = e[0].bound.get('wavelength') if e else None
+        if wl is None:
+            continue
+        reducers = [a for a in nf.value_atoms(wl) if is_app(a, ('amax', 'amin', 'max', 'min', 'mean', 'median', 'nanmax', 'nanmin'))
+                    or (a[0] == 'idx' and a[1] == ('sym', 'wavelength'))]
+        if wl == S('wavelength'):
+            okw, detw = None, 'the wavelength is passed on as it is (a band would give one grid per wavelength)'
+        elif len(reducers) == 1 and is_app(reducers[0], ('amax', 'max', 'nanmax')) and wl == Poly.atom(reducers[0]):
+            okw, detw = True, 'the longest wavelength of the band sizes the buffer'
+        elif reducers:
+            okw = False
+            detw = f'the buffer is sized for {fmt(wl)[:60]}: every longer wavelength of the band needs a larger FFT grid than the ' \
+                   'advertised shape and propagate_fft refuses the buffer'
+    chk.ob('C09-c', 'D-flow', fss.key, 'the advertised shape is the grid of the longest wavelength', okw, detw, fss.loc())
 
     # ---------------------------------------------------------------- C09-d / f / g
     scr = [p for p in returns(paths) if none_state(p, 'scratch') is False]
